@@ -39,3 +39,30 @@ def evalSend (args : List String) : String :=
   | _ => "bad-op"
 
 end Bmc.Driver
+
+namespace Bmc.Driver
+open Bmc Bmc.Wire Bmc.Crypto Bmc.Proto
+
+/-- `sendhist <auth> <integ> <k1> <k2> <localID> <remoteID> <n> <entropy>`: n commands on one session, the reply to
+    each of which is lost (so each transmits exactly one datagram): the IVs and sequence numbers the BMC sees -/
+def evalSendHist (args : List String) : String :=
+  match args with
+  | [_auth, integ, k1, k2, lid, rid, n, ent] =>
+    match [integ, lid, rid, n].mapM String.toNat?, parseHex k1, parseHex k2, parseHex ent with
+    | some [integ, lid, rid, n], some k1, some k2, some ent =>
+      let c : Cmd := { fn := 0x06, cmd := 0x01 }
+      let ivs := chunk16 (ent.length / 16) ent
+      let rec go (fuel : Nat) (s : Sess) (ivs : List Bytes) (acc : List Bytes) : List Bytes :=
+        match fuel, ivs with
+        | 0, _ => acc
+        | _, [] => acc
+        | f + 1, iv :: rest =>
+          let (s', sent, _) := send realOps s c [iv] [.lost]
+          go f s' rest (acc ++ sent)
+      let sent := go n { localID := lid, remoteID := rid, integ := integ, k1 := k1, k2 := k2 } ivs []
+      let ivsOut := sent.map fun d => (d.drop 16).take 16
+      let seqs := sent.map fun d => le32 (d.drop 10)
+      s!"n={sent.length} ivs={hexOf ivsOut.flatten} seqs={seqs}"
+    | _, _, _, _ => "bad-op"
+  | _ => "bad-op"
+end Bmc.Driver
